@@ -133,21 +133,15 @@ def c12_undo_misses_split_copy(info):
     `redone` pointer names the copy of its FIRST unit), and the copy was split afterwards (something was inserted between the
     two copies, or one of them was deleted and re-created again): the call removed the copy of x and left the copy of x+1
     alive.  UndoManager::try_process follows `redone` once per captured item and deletes only the block that starts there
-    (Store::follow_redone ignores the offset inside an item).
-    Second form (same routine): the copy had been squashed behind other copies, was deleted and re-created again as ONE block;
-    following the chain, follow_redone continues with the block's `redone` (= copy of the block's FIRST unit) and the call
-    removes the copy of a unit the step never inserted (`_wrong_copy_removed`).  Which copies get squashed depends on the
-    hash order in which try_process re-creates them: this form also shows as C12_Deterministic."""
+    and looks at no unit behind the first fragment.
+    (A second form of the same routine - Store::follow_redone dropped the offset inside a squashed block on later hops, the
+    call removed the copy of ANOTHER unit, hash-order dependent - was repaired in /repo by 78d3388; `_wrong_copy_removed` /
+    `_nondet_candidates` recognise it and are kept for triage only, no known finding refers to them.)"""
     e = info.get("event")
-    mine = {p[0] for p in info["preds"] if p[0].startswith("C12_")}
-    if mine == {"C12_Deterministic"}:
-        return any(_wrong_copy_removed(c) for c in _nondet_candidates(info))
     if not _is_pop(e) or "stk" not in e or "obs" not in e or not e.get("alias"):
         return False
     if not all(p[0] in INVERSE for p in info["preds"] if p[0].startswith("C12_")):
         return False
-    if _wrong_copy_removed(e):
-        return True
     undo = e["call"]["a"] == "undo"
     stack = e["stk"]["u" if undo else "r"]
     left = e["us"] if undo else e["rs"]
@@ -332,15 +326,12 @@ PROPOSED_KNOWN = [
              "(<e id=2>; remove id; set id=5 + remove id; undo -> element removed instead of <e id=2>)."},
     {"id": "KF-C12-2", "property": "C12",
      "pattern": "c12_undo_misses_split_copy",
-     "predicates": ["C12_OneStep", "C12_InverseUndo", "C12_InverseRedo", "C12_ReturnValue", "C12_Deterministic"],
+     "predicates": ["C12_OneStep", "C12_InverseUndo", "C12_InverseRedo", "C12_ReturnValue"],
      "what": "undo of an insertion leaves part of it behind: the inserted run (>= 2 text characters / array values in one item) "
              "was deleted and re-created by an earlier undo/redo, and the re-created copy was split afterwards (insertion "
              "between the copies, or partial deletion); UndoManager::try_process follows the item's `redone` pointer once and "
-             "deletes only the first fragment of the copy (Store::follow_redone ignores offsets inside an item) -- e.g. "
+             "deletes only the first fragment of the copy -- e.g. "
              "S1 insert 'ab'; S2 delete 'ab'; undo; S3 insert 'c' between a and b; undo; undo -> 'b' instead of ''. "
-             "Second form: the copy was squashed behind other copies and re-created again as one block; follow_redone then "
-             "continues without the unit's offset and the call removes the copy of a unit the step never inserted (depends on "
-             "the hash order of re-creation: also seen as C12_Deterministic). "
              "Candidate repair: notes/undoxml-split-copy.patch.diff (walk the copy fragment by fragment)."},
     {"id": "KF-C12-3", "property": "C12", "predicate": "C12_OneStep",
      "pattern": "c12_redo_splits_collected_block",
